@@ -32,6 +32,14 @@ P = {
          "the call carries a value within the bounds held at the call) - closed; implementation checked on every description of every table with "
          "int / displayed-float / float+-1e-7 / bool / 'on' / 'off' requests, the raw encoding of float requests computed by the PrimFloat model.",
          "bounds are those held when set() is called; schedule parameters are exercised under C07/C18."),
+ "C07": ("Theorems (closed): C07_tables (names are unique in every generated parameter table), C07_positions (after ANY sequence of parameter "
+         "responses every named parameter is stored with the index of the table position its name has - invariant over the handler model incl. "
+         "create-then-update), C07_unknown (a position without description changes nothing), C07_request (the payload built for a parameter "
+         "addresses index / mixer index / index+1+offset with the parameter's width; control and profile requests), C07_thermostat_partial "
+         "(hole-free thermostat responses give offset t x slots) and C07_thermostat_refuted (the full thermostat clause is false: known finding D8). "
+         "Real EcoMAX / Mixer / Thermostat objects are fed payloads rendered by the Coq spec encoders; the request of EVERY named parameter is "
+         "compared with its table position.",
+         "known finding D8 (thermostat offset with undefined holes) is open; schedule parameters are addressed by schedule name (C18)."),
  "C08": ("Theorem C08_all_histories (closed): for every tracking oracle, triple, in-range request differing from the held value, retry count and "
          "every finite history of timer expiries and controller reports, the outputs of the set-call model satisfy the monitor of the property "
          "(requested value only, at most `retries` transmissions, one per expiry, refresh iff not tracking, True only after a differing report, False "
